@@ -236,10 +236,16 @@ func doRU(full string, input []byte) string {
 }
 
 // RT: generated Unmarshal then generated Marshal (unknown-field pass-through, C07)
-func doRT(full string, input []byte) string {
+func doRT(full string, input, prefill []byte) string {
 	m, err := newMessage(full)
 	if err != nil {
 		return "driver-error " + err.Error()
+	}
+	if len(prefill) > 0 {
+		// the destination already holds a message (with unknown fields of its own): Unmarshal replaces it
+		if err := populate(m, prefill); err != nil {
+			return "populate-error"
+		}
 	}
 	return guard(func() string {
 		if err := m.(unmarshaler).Unmarshal(input); err != nil {
@@ -305,7 +311,11 @@ func Main(rt string) {
 			case "UM":
 				res = doUM(f[1], unhex(f[2]), unhex(f[3]))
 			case "RT":
-				res = doRT(f[1], unhex(f[2]))
+				pre := []byte(nil)
+				if len(f) > 3 {
+					pre = unhex(f[3])
+				}
+				res = doRT(f[1], unhex(f[2]), pre)
 			case "AL":
 				res = doAL(f[1], unhex(f[2]))
 			case "RU":
